@@ -4,6 +4,10 @@ import json, os
 HERE = os.path.dirname(os.path.dirname(os.path.abspath(__file__)))
 
 CLAIMED = {
+ 'C05': ('guarded-effect tables (control dependence of every demotion store and warning), return-row queries on the type predicate, registered-pass coverage and round count, both-sides pairing rules',
+         'Decides for every namespace the structural necessary conditions: each unbindable clause (unresolved, varargs, untyped list/array elements, callback without scope, callback return, owned bare struct, missing transfer) has a demoting row and every parameter warning is paired with the demotion; aliases are looked through; the type predicate rejects unresolved/unknown/va_list/long long/long double/missing or hidden targets and recurses into containers; aliases, parameters, returns, fields, embedded callbacks, properties and signals each have a demoting site in a registered pass and propagation runs twice; property accessors are recorded and cleared on both sides together, the emitter is compared pairwise, index and type names go through raising lookups.',
+         'Not decided: that type resolution finds the right definition for a given input; transitive include introspectability; propagation chains deeper than the registered rounds. Trusted: CPython ast.',
+         '§4 C05'),
  'C03': ('table closure docs->parser vocabulary->consumption (def-use from annotation lookup to attribute store)->symbolic writer table; def-use provenance of every block lookup key; guarded-effect queries for pairing and explicit-beats-heuristic rules',
          'Decides for every comment block the structural necessary conditions: every documented identifier annotation is accepted, consumed, stored into the documented model attribute and written under the documented XML key (19 annotation chains, 3 value tags with their doc elements, skip, attributes, constructor/method roles); each of the 14 block lookups builds its key only from the node being annotated with the separators the comment parser uses, and prefers the C name over the GType name; rename-to stores shadows/shadowed-by together, crossing, guarded on the target; heuristics never overwrite explicit sync/finish annotations (sibling agreement).',
          'Not decided: which of several competing rename-to annotations wins for a given input, constructor/method eligibility (C04). Trusted: CPython ast; the CHAIN/TAGS oracle tables in gilint/props/c03.py (from the property text).',
